@@ -392,6 +392,8 @@ class Evaluator:
         self._params = set(func.params)
         self._local_names = self._collect_locals()
         self._nested = {}
+        self._cur_at = None
+        self.param_override = {}
         self.alias_mode = False
         self._spec_mode = False
         self._keep_seq = False      # inside a subscript: tuple(x) / list(x) select different numpy indexing modes
@@ -438,20 +440,29 @@ class Evaluator:
     def _sym(self, name, typ=None):
         return self.ctx.mk(("sym", name), (), typ)
 
+    def _param(self, name):
+        """the value a parameter has on entry: its symbol, or the argument it is bound to when the function is being
+        inlined at a call site"""
+        if name in self.param_override:
+            return self.param_override[name]
+        return self._sym(f"param:{name}", self.param_types.get(name))
+
     def _name(self, name, at, restrict):
         if name in self.bound:
             return self.bound[name]
         if name == "self" and name in self._params:
+            if "self" in self.param_override:
+                return self.param_override["self"]
             return self._sym("self", self.self_type)
         if name == "cls" and name in self._params:
             return self._sym("cls", self.self_type)
         if name in self._local_names or name in self._params:
             if at is None:
                 if getattr(self, "_spec_mode", False) and name in self._params:
-                    return self._sym(f"param:{name}", self.param_types.get(name))
+                    return self._param(name)
                 defs = self._all_defs(name)
                 if name in self._params and not defs:
-                    return self._sym(f"param:{name}", self.param_types.get(name))
+                    return self._param(name)
                 if len(defs) == 1 and name not in self._params:
                     return self._def_term(name, defs[0], restrict)
                 raise AnalysisError(f"{self.func.qual}: name {name!r} needs a program point to be resolved")
@@ -462,7 +473,7 @@ class Evaluator:
             terms = []
             param_reaches = name in self._params and self._param_reaches(name, at, restrict)
             if param_reaches:
-                terms.append((-1, self._sym(f"param:{name}", self.param_types.get(name))))
+                terms.append((-1, self._param(name)))
             for d in sorted(ds or ()):
                 if d not in fds:
                     # arrives only by going round a loop: loop-carried value, kept abstract (canonical cut)
@@ -471,7 +482,7 @@ class Evaluator:
                 terms.append((d, self._def_term(name, self.cfg.nodes[d], restrict)))
             if not terms:
                 if name in self._params:
-                    return self._sym(f"param:{name}", self.param_types.get(name))
+                    return self._param(name)
                 # defined only later / in another branch: unbound here
                 return self.ctx.mk(("unbound", name))
             uniq = []
@@ -807,6 +818,27 @@ class Evaluator:
         c = self.ctx
         ev = self
         gens = []
+        # a comprehension whose first loop runs over a short literal tuple/list is the concatenation of one comprehension per
+        # element:  [f(x, i) for x in (a, b) for i in g(x)]  ==  [f(a, i) for i in g(a)] + [f(b, i) for i in g(b)]
+        g0 = e.generators[0]
+        if isinstance(e, (ast.ListComp, ast.GeneratorExp)) and isinstance(g0.iter, (ast.Tuple, ast.List)) and not g0.ifs \
+                and isinstance(g0.target, ast.Name) and 1 <= len(g0.iter.elts) <= 4 \
+                and not any(isinstance(x, ast.Starred) for x in g0.iter.elts) and not getattr(g0, "is_async", 0):
+            parts = []
+            for el in g0.iter.elts:
+                sub = self.with_bound({g0.target.id: self._t(el, at, R)})
+                if len(e.generators) == 1:
+                    parts.append(sub._t(e.elt, at, R))
+                else:
+                    rest = type(e)(elt=e.elt, generators=e.generators[1:])
+                    ast.copy_location(rest, e)
+                    parts.append(sub._comp(rest, at, R))
+            if len(e.generators) == 1:
+                return c.mk(("list",), parts)
+            out = parts[0]
+            for p_ in parts[1:]:
+                out = c.mk(("concat",), (out, p_))
+            return out
         for g in e.generators:
             it = ev._t(g.iter, at, R)
             env = {}
@@ -907,6 +939,13 @@ class Evaluator:
                 return self._bool("and", [self._not(a) for a in args])
             if h[0] == "const" and isinstance(h[1], bool):
                 return c.mk(("const", not h[1]))
+            if h[0] == "call" and h[1] in ("all", "any") and len(args) == 1 and not (len(h) > 3 and h[3]):
+                # quantifier duality: not all(P(x) for x in xs) == any(not P(x) for x in xs), and the other way round
+                hs = c.head_of(args[0])
+                if hs and hs[0] == "seqcomp":
+                    sa = c.args_of(args[0])
+                    comp = c.mk(hs, [self._not(sa[0])] + list(sa[1:]))
+                    return c.mk(("call", "any" if h[1] == "all" else "all") + tuple(h[2:]), (comp,))
         return c.mk(("not",), (x,))
 
     def _bool(self, kind, parts):
@@ -948,6 +987,18 @@ class Evaluator:
     def _attr(self, base, attr):
         c = self.ctx
         h = c.head_of(base)
+        if h and h[0] == "phi" and all(c.type_of(m) is not None for m in c.args_of(base)):
+            # an attribute of "one of several repository objects" is "one of their attributes" (x = a or b; x.f == a.f or
+            # b.f); arrays and other untyped values are left alone (x.reshape(*x.shape) must keep talking about one x)
+            uniq = []
+            for m in c.args_of(base):
+                t = self._attr(m, attr)
+                if not any(c.eq(t, u) for u in uniq):
+                    uniq.append(t)
+            if len(uniq) == 1:
+                return uniq[0]
+            types = {c.type_of(u) for u in uniq}
+            return c.mk(("phi",), uniq, types.pop() if len(types) == 1 else None)
         if h and h[0] == "sym" and not h[1].startswith(("param:", "self", "fn:", "cls", "localfn:")) \
                 and c.type_of(base) is None:
             # dotted module path: np.linalg.norm
@@ -956,6 +1007,9 @@ class Evaluator:
             t = c.type_of(base)
             return c.mk(("classof",), (base,), None) if t is None else c.mk(("classof",), (base,))
         typ = c.type_of(base)
+        if typ is None and attr == "ndim" and not (h and h[0] == "sym" and h[1].startswith(("param:", "self", "cls"))):
+            # number of axes of an array: x.ndim == len(x.shape)
+            return c.mk(("call", "len", 1, ()), (c.mk(("attr", "shape"), (base,)),))
         if typ is not None:
             # data slots
             st = SLOT_TYPES.get((typ, attr))
@@ -1010,6 +1064,7 @@ class Evaluator:
 
     def _call(self, e, at, R):
         c = self.ctx
+        self._cur_at = at
         T = lambda x: self._t(x, at, R)  # noqa: E731
         pos = []
         star = False
@@ -1056,8 +1111,74 @@ class Evaluator:
         kws = sorted(kws, key=lambda kv: kv[0])
         return c.mk(("new", cls, tuple(k for k, _ in kws)), pos + [v for _, v in kws], cls if cls != "?" else None)
 
+    def _inline_value(self, fi, pos, kws, star, recv=None, parent=None, parent_at=None):
+        """term of a call to a helper the rules do not know: the value of its single `return`, with the parameters bound
+        to the arguments (local assignments inside the helper are followed).  None when the helper has another shape."""
+        if star or any(k == "**" for k, _ in kws):
+            return None
+        node = fi.node
+        rets = [st for st in _walk_own(node) if isinstance(st, ast.Return)]
+        if len(rets) != 1 or rets[0].value is None or any(isinstance(st, (ast.Yield, ast.YieldFrom)) for st in ast.walk(node)):
+            return None
+        a = node.args
+        if a.vararg or a.kwarg or a.posonlyargs:
+            return None
+        names = [x.arg for x in a.args]
+        bound = {}
+        if recv is not None:
+            if not names:
+                return None
+            bound[names[0]] = recv
+            names = names[1:]
+        if len(pos) > len(names):
+            return None
+        for n_, t_ in zip(names, pos):
+            bound[n_] = t_
+        for k_, t_ in kws:
+            if k_ not in names and k_ not in [x.arg for x in a.kwonlyargs] or k_ in bound:
+                return None
+            bound[k_] = t_
+        key = ("inline", fi.qual, tuple(sorted((k, v.key()) for k, v in bound.items())), self.alias_mode)
+        if key in self._cache:
+            return self._cache[key]
+        if key in self._stack or len(self._stack) > 40:
+            return None
+        sub = Evaluator(self.repo, fi, self.ctx, self_type=self.self_type if recv is not None else None, expand=self.expand,
+                        parent=parent, parent_at=parent_at)
+        sub.alias_mode = self.alias_mode
+        # defaults of the parameters that were not passed
+        defaults = dict(zip([x.arg for x in a.args][len(a.args) - len(a.defaults):], a.defaults))
+        defaults.update({x.arg: d for x, d in zip(a.kwonlyargs, a.kw_defaults) if d is not None})
+        for n_ in list(names) + [x.arg for x in a.kwonlyargs]:
+            if n_ not in bound:
+                if n_ not in defaults:
+                    return None
+                bound[n_] = self._t(defaults[n_], None, None)
+        sub.param_override = dict(bound)
+        self._stack.append(key)
+        self._foreign.append(set())
+        try:
+            res = sub.term(rets[0].value, at=rets[0])
+        except AnalysisError:
+            res = None
+        finally:
+            self._stack.pop()
+            self._foreign.pop()
+        self._cache[key] = res
+        return res
+
     def _func_call(self, fname, pos, kws, kwd, star):
         c = self.ctx
+        if fname.startswith("localfn:"):
+            q = f"{self.func.qual}.{fname[8:]}"
+            if self.repo.is_new_function(q):
+                res = self._inline_value(self.repo.funcs[q], pos, kws, star, parent=self, parent_at=self._cur_at)
+                if res is not None:
+                    return res
+        if fname.startswith("fn:") and self.repo.is_new_function(fname[3:]):
+            res = self._inline_value(self.repo.funcs[fname[3:]], pos, kws, star)
+            if res is not None:
+                return res
         if fname in ("self", ) or fname.startswith("param:cls"):
             pass
         if fname == "cls":      # cls(...) inside a classmethod
@@ -1149,6 +1270,12 @@ class Evaluator:
         if h and h[0] == "classof" and False:
             pass
         if typ is not None:
+            # a method the rules do not know (an extracted helper): the value of its single return
+            mi = self.repo.resolve_method(typ, m)
+            if mi is not None and self.repo.is_new_function(mi.qual) and mi.kind == "method":
+                res = self._inline_value(mi, pos, kws, star, recv=recv)
+                if res is not None:
+                    return res
             # classmethod-style constructor via self.__class__ handled in _call; here ordinary methods
             ret = METHOD_RET.get((typ, m))
             kws2 = sorted(kws, key=lambda kv: kv[0])
@@ -1156,6 +1283,18 @@ class Evaluator:
                         [recv] + pos + [v for _, v in kws2], ret)
         kws2 = sorted(kws, key=lambda kv: kv[0])
         return c.mk(("call", f".{m}", len(pos) + 1, tuple(k for k, _ in kws2)), [recv] + pos + [v for _, v in kws2])
+
+
+def _walk_own(fn_node):
+    """statements and expressions of a function, not those of functions nested in it"""
+    st = list(fn_node.body)
+    while st:
+        x = st.pop()
+        yield x
+        for ch in ast.iter_child_nodes(x):
+            if isinstance(ch, (ast.FunctionDef, ast.AsyncFunctionDef, ast.ClassDef, ast.Lambda)):
+                continue
+            st.append(ch)
 
 
 def _comp_targets(target, path=()):
